@@ -1,0 +1,8 @@
+//go:build !verif
+
+package app
+
+import gotime "time"
+
+// verifNow is a no-op unless built with the `verif` tag.
+func verifNow() (gotime.Time, bool) { return gotime.Time{}, false }
